@@ -3263,7 +3263,7 @@ func (p *printer) printExpr(expr js_ast.Expr, level js_ast.L, flags printExprFla
 				p.print("*")
 			}
 			p.printSpace()
-			p.printExprWithoutLeadingNewline(e.ValueOrNil, js_ast.LYield, 0)
+			p.printExprWithoutLeadingNewline(e.ValueOrNil, js_ast.LYield, flags&forbidIn)
 		}
 
 		if wrap {
